@@ -16,6 +16,7 @@ import (
 	"testing"
 	"time"
 
+	"go.minekube.com/gate/pkg/edition/java/config"
 	"go.minekube.com/gate/pkg/edition/java/proxy/zzverif/vrt"
 	"go.minekube.com/gate/pkg/util/netutil"
 )
@@ -252,6 +253,13 @@ func peers() []peer {
 		h, zone, _ := strings.Cut(t, "%")
 		if ip := net.ParseIP(h); ip != nil {
 			out = append(out, peer{"tcpaddr:" + t, &net.TCPAddr{IP: ip, Port: 54321, Zone: zone}})
+			// other typed addresses a connection may report: a 4-byte IP (what an AF_INET socket yields; ParseIP
+			// always gives the 16-byte form), *net.IPAddr (no port), *net.UDPAddr
+			if v4 := ip.To4(); v4 != nil && !strings.Contains(h, ":") {
+				out = append(out, peer{"tcpaddr4:" + t, &net.TCPAddr{IP: v4, Port: 54321, Zone: zone}})
+			}
+			out = append(out, peer{"ipaddr:" + t, &net.IPAddr{IP: ip, Zone: zone}})
+			out = append(out, peer{"udpaddr:" + t, &net.UDPAddr{IP: ip, Port: 54321, Zone: zone}})
 		}
 		if strings.Contains(t, ":") {
 			out = append(out, peer{"text:[" + t + "]:54321", strAddr("[" + t + "]:54321")})
@@ -272,6 +280,7 @@ func peers() []peer {
 type c33Case struct {
 	List   []string `json:"list"`
 	NilPP  bool     `json:"nil_wrapper,omitempty"`
+	ViaCfg bool     `json:"via_config,omitempty"` // wrapper built by newProxyProtocol(cfg) instead of from ParseTrustedNetworks
 	Peer   string   `json:"peer"`
 	Stream string   `json:"stream"`
 	Chunk  int      `json:"chunk"`
@@ -302,6 +311,31 @@ func parseCase(list []string) (pp *proxyProtocol, nets []refNet, usable bool, ki
 		return nil, nil, false, "ParseTrustedNetworks/rejects-valid", fmt.Sprintf("ParseTrustedNetworks(%q) failed: %v; every entry is a valid IP or CIDR", list, err)
 	}
 	return &proxyProtocol{trusted: tn}, nets, true, "", ""
+}
+
+// parseCaseCfg builds the wrapper the way the proxy does: newProxyProtocol(cfg) with the list as the configured
+// proxyProtocolTrustedProxies. An EMPTY configured list means "the documented defaults"
+// (config.DefaultProxyProtocolTrustedProxies(), a list of strings that goes through the reference parser here).
+func parseCaseCfg(list []string) (pp *proxyProtocol, nets []refNet, usable bool, kind, desc string) {
+	eff := list
+	if len(list) == 0 {
+		eff = config.DefaultProxyProtocolTrustedProxies()
+	}
+	status, nets := refParseList(eff)
+	pp, err := newProxyProtocol(&config.Config{ProxyProtocolTrustedProxies: append([]string(nil), list...)})
+	switch status {
+	case entInvalid:
+		if err == nil {
+			return nil, nil, false, "newProxyProtocol/accepts-invalid", fmt.Sprintf("newProxyProtocol with proxyProtocolTrustedProxies=%q succeeded (trusted %v); the list holds an entry that is not a valid IP/CIDR or is an IPv4-mapped form", list, pp.trustedNetworks())
+		}
+		return nil, nil, false, "", ""
+	case entDontCare:
+		return nil, nil, false, "", ""
+	}
+	if err != nil || pp == nil {
+		return nil, nil, false, "newProxyProtocol/rejects-valid", fmt.Sprintf("newProxyProtocol with proxyProtocolTrustedProxies=%q failed: %v; every entry is a valid IP or CIDR", list, err)
+	}
+	return pp, nets, true, "", ""
 }
 
 func runCase(pp *proxyProtocol, nets []refNet, p peer, st stream, chunk int, order string) (kind, desc string) {
@@ -401,7 +435,11 @@ func TestVerif(t *testing.T) {
 			if !rc.NilPP {
 				var k, d string
 				var usable bool
-				pp, nets, usable, k, d = parseCase(rc.List)
+				if rc.ViaCfg {
+					pp, nets, usable, k, d = parseCaseCfg(rc.List)
+				} else {
+					pp, nets, usable, k, d = parseCase(rc.List)
+				}
 				if k != "" {
 					r.Violation(k, d, rc)
 					return
@@ -431,16 +469,20 @@ func TestVerif(t *testing.T) {
 		quickStreams := map[string]bool{"v1-tcp4+payload": true, "v2-tcp4+payload": true, "no-header-handshake": true, "v2-local+payload": true, "partial-v1-no-crlf": true}
 		cls := map[string]int{}
 		evals, nontrivial := 0, 0
-		work := func(idx int, list []string, nilPP bool) {
+		work := func(idx int, list []string, nilPP, viaCfg bool) {
 			var pp *proxyProtocol
 			var nets []refNet
 			if !nilPP {
 				var k, d string
 				var usable bool
-				pp, nets, usable, k, d = parseCase(list)
+				if viaCfg {
+					pp, nets, usable, k, d = parseCaseCfg(list)
+				} else {
+					pp, nets, usable, k, d = parseCase(list)
+				}
 				evals++
 				if k != "" {
-					r.Violation(k, d, c33Case{List: list})
+					r.Violation(k, d, c33Case{List: list, ViaCfg: viaCfg})
 					return
 				}
 				if !usable {
@@ -453,8 +495,11 @@ func TestVerif(t *testing.T) {
 					return
 				}
 				cls["list:valid"]++
+				if viaCfg {
+					cls["list:valid-through-newProxyProtocol(cfg)"]++
+				}
 			}
-			full := len(list) <= 1 || r.Thorough()
+			full := (len(list) <= 1 && !viaCfg) || r.Thorough()
 			for _, p := range prs {
 				tr := refTrusted(nets, p.Addr)
 				for _, st := range sts {
@@ -466,7 +511,7 @@ func TestVerif(t *testing.T) {
 							evals++
 							k, d := runCase(pp, nets, p, st, chunk, order)
 							if k != "" {
-								r.Violation(k, d, c33Case{List: list, NilPP: nilPP, Peer: p.Name, Stream: st.Name, Chunk: chunk, Order: order})
+								r.Violation(k, d, c33Case{List: list, NilPP: nilPP, ViaCfg: viaCfg, Peer: p.Name, Stream: st.Name, Chunk: chunk, Order: order})
 								cls["case:violating"]++
 								continue
 							}
@@ -484,7 +529,7 @@ func TestVerif(t *testing.T) {
 			}
 		}
 		if r.Mine(0) {
-			work(0, nil, true)
+			work(0, nil, true, false)
 			cls["list:nil-wrapper"]++
 		}
 		for i, l := range lists {
@@ -494,7 +539,10 @@ func TestVerif(t *testing.T) {
 			if i%32 == 0 && r.Expired() {
 				break
 			}
-			work(i+1, l, false)
+			work(i+1, l, false, false)
+			// the same list as configuration of the real constructor: the empty list (defaults), every single
+			// entry and - to see that a configured list REPLACES the defaults - every pair
+			work(i+1, l, false, true)
 		}
 		r.Eval(evals)
 		r.Nontrivial(nontrivial)
